@@ -22,6 +22,7 @@ type EngineSpec struct {
 	Name   string // engine name (bftsim, storesim, ...)
 	Run    Engine
 	Bubble bool // run inside a testing/synctest bubble (fake clock)
+	LeakOK bool // service goroutines of the code under test may outlive the run
 }
 
 // RunOne executes one run; returns the violation (if any) or a harness error.
@@ -55,7 +56,10 @@ func RunOne(t *testing.T, spec EngineSpec, c *Ctx) (v *Violation, herr error) {
 	}
 	defer func() {
 		if r := recover(); r != nil {
-			if herr == nil && v == nil {
+			if herr == nil && v == nil && strings.Contains(fmt.Sprint(r), "blocked goroutines remain") && spec.LeakOK {
+				// the code under test starts service goroutines it never stops (e.g. cache janitors): they are
+				// abandoned with the bubble
+			} else if herr == nil && v == nil {
 				herr = fmt.Errorf("bubble panic: %v", r)
 			} else if v == nil {
 				herr = fmt.Errorf("%v; bubble panic: %v", herr, r)
